@@ -1,6 +1,7 @@
-import Zstd.Proofs.FrameDecoderOps
+import Zstd.Proofs.FrameDecoderStandIn
+import Zstd.Proofs.FrameFaithful
 /-
-C05 — Decoder memory is bounded by the window limit plus what the caller asked for plus one block.
+C05 — Decoder σ memory is bounded by the window limit plus what the caller asked for plus one block.
 
 Property theorems only.  "Memory" is the number of decoded bytes the decoder holds
 (`DBuf.content.size` = `DecodeBuffer::len()`; C04 turns it into allocation size).  Every bound is
@@ -8,8 +9,11 @@ stated with the literal 131072 and proved through `Gen.maxBlockSize` and the gua
 `Gen.blockSizeTooLarge`, both regenerated from the source text on every run: weakening the guard or
 raising the constant in the Rust code breaks these theorems.  All states, sources, strategies.
 -/
+set_option linter.unusedSectionVars false
 namespace Zstd.Props.C05
 open Zstd Zstd.Model
+
+variable {σ : Type} [BlockDec σ] [BlockContract σ]
 
 /-- the four guards that cap a block — block header size, literals `Regenerated_Size`, running
 `seq_sum` before each sequence, trailing literals — as extracted from the source text: their operator
@@ -44,14 +48,14 @@ theorem header_guard_rejects (b0 b1 b2 : Nat) (bh : BHeader) (h : parseBlockHead
 /-- `block_growth`: one block adds at most 128 KiB to the buffer — on the `Ok` path AND on every
 error path (the buffer is left as the Rust scratch is left); raw/RLE through the header guard,
 compressed blocks through the running `seq_sum` checks of `execute_sequences` and the literals guard -/
-theorem block_growth (st : FState) (s : Src) :
+theorem block_growth (st : FState σ) (s : Src) :
     (decodeOneBlock st s).1.buf.content.size ≤ st.buf.content.size + 131072 := by
   obtain ⟨x, hx, hs⟩ := (decodeOneBlock_step st s).appends
   have e : Gen.maxBlockSize = 131072 := by decide
   rw [hx.size]; omega
 
 /-- a block only ever appends: what was buffered before is still there, in front -/
-theorem block_appends (st : FState) (s : Src) :
+theorem block_appends (st : FState σ) (s : Src) :
     ∃ x, (decodeOneBlock st s).1.buf.content = st.buf.content ++ x ∧ x.size ≤ 131072 := by
   obtain ⟨x, hx, hs⟩ := (decodeOneBlock_step st s).appends
   have e : Gen.maxBlockSize = 131072 := by decide
@@ -85,33 +89,33 @@ theorem literals_scratch_bound (raw : List Nat) (prev : Option Spec.Huffman.Tabl
   omega
 
 /-- `decodeBlocks_bound`, `UptoBytes(n)`: at most `n` + one block more than before, whatever the input -/
-theorem decodeBlocks_bound_bytes (d : Decoder) (s : Src) (n : Nat) :
+theorem decodeBlocks_bound_bytes (d : Decoder σ) (s : Src) (n : Nat) :
     (d.decodeBlocks s (.uptoBytes n)).1.content.size ≤ d.content.size + n + 131072 :=
   Decoder.decodeBlocks_bound_bytes d s n
 
 /-- `decodeBlocks_bound`, `UptoBlocks(k)`: at most `max k 1` blocks (the loop tests the budget after a
 block, so `UptoBlocks(0)` decodes one block) -/
-theorem decodeBlocks_bound_blocks (d : Decoder) (s : Src) (k : Nat) :
+theorem decodeBlocks_bound_blocks (d : Decoder σ) (s : Src) (k : Nat) :
     (d.decodeBlocks s (.uptoBlocks k)).1.content.size ≤ d.content.size + max k 1 * 131072 :=
   Decoder.decodeBlocks_bound_blocks d s k
 
 /-- `drain_bound`: after `collect()` at most `window_size` bytes stay buffered (in every state) -/
-theorem drain_bound_collect (d : Decoder) : (d.collect).1.content.size ≤ d.window :=
+theorem drain_bound_collect (d : Decoder σ) : (d.collect).1.content.size ≤ d.window :=
   Decoder.collect_bound d
 
 /-- `drain_bound` for `read(buf)`: down to the window (to nothing once the last block is in) or by
 `buf.len()` bytes, whichever leaves more -/
-theorem drain_bound_read (d : Decoder) (n : Nat) :
+theorem drain_bound_read (d : Decoder σ) (n : Nat) :
     (d.read n).1.content.size ≤ max (d.content.size - n) (if d.blocksDone then 0 else d.window) :=
   Decoder.read_bound d n
 
 /-- one iteration of the documented loop `decode_blocks(UptoBytes(n)); collect()` -/
-def steadyIter (d : Decoder) (s : Src) (n : Nat) : Decoder := ((d.decodeBlocks s (.uptoBytes n)).1.collect).1
+def steadyIter (d : Decoder σ) (s : Src) (n : Nat) : Decoder σ := ((d.decodeBlocks s (.uptoBytes n)).1.collect).1
 
 /-- `steady_bound` for the documented loop: starting at or below the window, the peak inside an
 iteration is ≤ window + n + 128 KiB and the iteration ends at or below the window again — so the
 bound holds forever, for every input (`s` is arbitrary in every iteration) -/
-theorem steady_bound (d : Decoder) (s : Src) (n : Nat) (h : d.content.size ≤ d.window) :
+theorem steady_bound (d : Decoder σ) (s : Src) (n : Nat) (h : d.content.size ≤ d.window) :
     (d.decodeBlocks s (.uptoBytes n)).1.content.size ≤ d.window + n + 131072 ∧
     (steadyIter d s n).content.size ≤ (steadyIter d s n).window ∧ (steadyIter d s n).window = d.window := by
   have h1 := decodeBlocks_bound_bytes d s n
@@ -125,7 +129,7 @@ theorem steady_bound (d : Decoder) (s : Src) (n : Nat) (h : d.content.size ≤ d
 
 /-- … iterated: every state reached by any number of iterations (each with its own source and
 budget ≤ `n`) holds at most `window + n + 128 KiB` bytes at its peak -/
-theorem steady_bound_forever (d : Decoder) (iters : List (Src × Nat)) (n : Nat)
+theorem steady_bound_forever (d : Decoder σ) (iters : List (Src × Nat)) (n : Nat)
     (hn : ∀ p ∈ iters, p.2 ≤ n) (h : d.content.size ≤ d.window) :
     let dEnd := iters.foldl (fun d p => steadyIter d p.1 p.2) d
     dEnd.content.size ≤ dEnd.window ∧ dEnd.window = d.window ∧
@@ -145,7 +149,7 @@ theorem steady_bound_forever (d : Decoder) (iters : List (Src × Nat)) (n : Nat)
 /-- `steady_bound` for `StreamingDecoder::read(buf)` with `n = buf.len()`: the call never holds more
 than `max(before, window + n + 128 KiB)` — so a reader that always passes buffers of ≤ `n` bytes stays
 below `window + n + 128 KiB` for ever -/
-theorem steady_bound_streaming (d : Decoder) (s : Src) (n : Nat) :
+theorem steady_bound_streaming (d : Decoder σ) (s : Src) (n : Nat) :
     (streamingRead d s n).1.content.size ≤ max d.content.size (d.window + n + 131072) ∧
     (streamingFill (s.length + 2) d s n).1.content.size ≤ max d.content.size (d.window + n + 131072) := by
   have e : Gen.maxBlockSize = 131072 := by decide
@@ -164,5 +168,40 @@ example : parseBlockHeader 0xFB 0xFF 0xFF = .error (.blockSizeTooLarge 2097151) 
 
 /-- an RLE block of exactly 128 KiB is accepted: the bound is attained, not vacuous -/
 example : (parseBlockHeader 0x02 0x00 0x10).toOption.map (·.decompressedSize) = some 131072 := by decide +kernel
+
+
+/-! ### instance B: the decoder the drivers run
+
+`DecB = Decoder Blk.Scratch` is the frame-level model over the FAITHFUL block decoder
+(`Blk.decompressBlock`, Model/BlockDecode.lean), the one engine `dec` compares with the real code on
+valid AND malformed frames.  Its `BlockContract` is proved without hypotheses
+(`instBlockContractFaithful`, Proofs/FrameFaithful.lean), so every theorem above holds for it. -/
+
+theorem block_growth_faithful (st : FState Blk.Scratch) (s : Src) :
+    (decodeOneBlock st s).1.buf.content.size ≤ st.buf.content.size + 131072 :=
+  block_growth st s
+
+theorem decodeBlocks_bound_bytes_faithful (d : DecB) (s : Src) (n : Nat) :
+    (d.decodeBlocks s (.uptoBytes n)).1.content.size ≤ d.content.size + n + 131072 :=
+  decodeBlocks_bound_bytes d s n
+
+theorem steady_bound_forever_faithful (d : DecB) (iters : List (Src × Nat)) (n : Nat)
+    (hn : ∀ p ∈ iters, p.2 ≤ n) (h : d.content.size ≤ d.window) :
+    let dEnd := iters.foldl (fun d p => steadyIter d p.1 p.2) d
+    dEnd.content.size ≤ dEnd.window ∧ dEnd.window = d.window ∧
+    ∀ s' n', n' ≤ n → (dEnd.decodeBlocks s' (.uptoBytes n')).1.content.size ≤ d.window + n + 131072 :=
+  steady_bound_forever d iters n hn h
+
+theorem steady_bound_streaming_faithful (d : DecB) (s : Src) (n : Nat) :
+    (streamingRead d s n).1.content.size ≤ max d.content.size (d.window + n + 131072) :=
+  (steady_bound_streaming d s n).1
+
+/-- the block-level fact behind it, for the faithful decoder itself: whatever the block content and
+the scratch, `decompress_block` only appends, at most 128 KiB, on every outcome -/
+theorem decompressBlock_faithful_appends (content : List Nat) (s : Blk.Scratch) (b : DBuf) :
+    ∃ x, (Blk.decompressBlock content s b).1.2.1.content = b.content ++ x ∧ x.size ≤ 131072 := by
+  obtain ⟨x, hx, hs⟩ := Blk.run_appends content s b
+  have e : Gen.maxBlockSize = 131072 := by decide
+  exact ⟨x, hx.content, by omega⟩
 
 end Zstd.Props.C05
